@@ -2,6 +2,7 @@
 //! openqasm3_parser crates.  It renders, drives, projects and compares; expected values and
 //! allowed sets come from TLC.
 mod symtab;
+mod types;
 mod util;
 
 fn main() {
@@ -14,6 +15,7 @@ fn main() {
     match args[0].as_str() {
         "symtab-walk" => symtab::walk(rest),
         "symtab-record" => symtab::record(rest),
+        "types-table" => types::table(rest),
         other => {
             eprintln!("unknown subcommand {other}");
             std::process::exit(2);
